@@ -151,3 +151,51 @@ Theorem ref_accepted_gen (o : oracles) (fmt_int : Z -> string) (fmt_float : floa
   plain gen_grammar o fmt_int fmt_float ts = true -> ref_parses gen_grammar o fmt_int fmt_float ts t ->
   exists t', parse gen_grammar o ts = ROk t' /\ erase_loc t' = erase_loc t.
 Proof. exact (ref_accepted gen_grammar o fmt_int fmt_float gen_grammar_wf ts t). Qed.
+
+(* ------------------------------------------------------------------ bounded exhaustive sweep (computed in Coq).
+   For every sequence of at most n tokens over a 20-symbol alphabet (plus EOF; distinct locations), if the sequence
+   is in `sound_scope`:  accepted -> the normalised sequence IS the printing of the returned tree with the computed
+   oracle `oracle_for`;  rejected -> the normalised sequence is rejected too, hence (ref_roundtrip) the reference
+   grammar assigns no tree — the direction of `rejects_iff` that is a theorem only for `plain` sequences. *)
+Definition sweep_alphabet : list (tkind * string) :=
+  [(TkIdentifier, "a"); (TkNumber, "1"); (TkString, "s"); (TkOperator, "+"); (TkOperator, "-"); (TkOperator, "not");
+   (TkOperator, "."); (TkOperator, "?."); (TkBracket, "["); (TkBracket, "]"); (TkBracket, "("); (TkBracket, ")");
+   (TkBracket, "{"); (TkBracket, "}"); (TkOperator, ","); (TkOperator, ":"); (TkOperator, "?"); (TkOperator, "#");
+   (TkIdentifier, "all"); (TkIdentifier, "nil")]%string.
+
+Fixpoint locate (i : Z) (l : list (tkind * string)) : list token :=
+  match l with [] => [mkTok (1, i) TkEOF ""] | (k, v) :: r => mkTok (1, i) k v :: locate (i + 1) r end.
+
+Definition accepted (r : parse_result) : bool := match r with ROk _ => true | _ => false end.
+Definition tok_eqb (a b : token) : bool :=
+  loc_eqb (tloc a) (tloc b) && tkind_eqb (tkind_of a) (tkind_of b) && String.eqb (tval a) (tval b).
+
+Definition check_seq (s : list (tkind * string)) : bool :=
+  let ts := locate 1 s in
+  let nt := normalize gen_grammar o_any dec ff0 ts in
+  if sound_scope gen_grammar o_any dec ff0 ts then
+    match parse gen_grammar o_any ts with
+    | ROk t => all2 tok_eqb nt (print_any gen_grammar dec ff0 (oracle_for gen_grammar dec ff0 nt t) t)
+    | _ => negb (accepted (parse gen_grammar o_any nt))
+    end
+  else true.
+
+Fixpoint check_all (n : nat) (pre : list (tkind * string)) : bool :=
+  check_seq (rev pre) &&
+  match n with O => true | S n' => forallb (fun x => check_all n' (x :: pre)) sweep_alphabet end.
+
+Fixpoint count_all (n : nat) : Z :=
+  match n with O => 1 | S n' => 1 + Z.of_nat (List.length sweep_alphabet) * count_all n' end.
+
+Lemma bounded_sweep_4 : check_all 4 [] = true /\ count_all 4 = 168421.
+Proof. vm_compute. split; reflexivity. Qed.
+
+(* what a passed check means for a rejected sequence *)
+Lemma check_seq_rejected s e :
+  check_seq s = true -> sound_scope gen_grammar o_any dec ff0 (locate 1 s) = true ->
+  parse gen_grammar o_any (locate 1 s) = RErr e ->
+  ~ (exists t, ref_parses gen_grammar o_any dec ff0 (locate 1 s) t).
+Proof.
+  unfold check_seq. intros C S E [t R]. rewrite S, E in C.
+  rewrite (ref_roundtrip gen_grammar o_any dec ff0 gen_grammar_wf _ _ R) in C. discriminate C.
+Qed.
